@@ -12,7 +12,8 @@ Line: `chk <hex source (ignored here)> <kind> <scrutinee type id> T <n> <def>…
   contains the match (`visErr`); name id 0 is the enclosing function's parameter `x`
 * spat: `W` | `I <name id>` | `T <k> p…` | `O <k> (<field name> p)…` | `V <tag> <k> p…` | `R <k> p…`
 Answer: `nonexh=<counterexample or -> useless=<0|1> err=<0|1> panic=<0|1> typed=<0|1> inh=<0|1>`
-(`hyp`: `cxOkCheck && nodupCheck` — the hypotheses `CxOk`/`SigNodup` of the theorems hold for this table; `swf`: every source
+(`abs`: the abstract patterns `normalize` builds, in the hook's rendering, compared with what the real checker handed to the analysis;
+`hyp`: `cxOkCheck && nodupCheck` — the hypotheses `CxOk`/`SigNodup` of the theorems hold for this table; `swf`: every source
 pattern is in the domain of `normalize_sem`; `inh`: a rank certificate for `Inhabited'` of the type table was found and checked by `rankCheck`); variant names are
 printed as `#<id>` (the Python side substitutes the names). The model functions run with the fuel `usefulFuel` / `cexFuel`, proved sufficient (`useful_fuel_bound`, `cex_fuel_bound`); `fuel` would be printed if it ran out (cannot happen). -/
 namespace Driver.C07
@@ -146,6 +147,13 @@ def computeRanks (defs : List Def) : List Nat :=
 
 def b (x : Bool) : String := if x then "1" else "0"
 
+/-- the rendering of the hook `samlang_checker::verif_hooks_c07` (variant names as `#id`) -/
+partial def renderAbs : Pat → String
+  | .wild => "_"
+  | .or ps => "O(" ++ "|".intercalate (ps.map renderAbs) ++ ")"
+  | .struct none args => "T(" ++ ",".intercalate (args.map renderAbs) ++ ")"
+  | .struct (some c) args => s!"#{c.name}(" ++ ",".intercalate (args.map renderAbs) ++ ")"
+
 def answer (kind : String) (ty : Nat) (defs : List Def) (pats : List SPat) (mono : Bool)
     (visTab : List (List Bool)) : String :=
   let sig : Sig := fun t => defs.getD t .prim
@@ -158,6 +166,7 @@ def answer (kind : String) (ty : Nat) (defs : List Def) (pats : List SPat) (mono
   let err := ns.any (·.err) || pats.any (fun p => visErr sig vis p ty)
   let pan := ns.any (·.panic)
   let typed := aps.all (fun p => patTy sig p ty)
+  let absS := ";".intercalate (aps.map renderAbs)
   let inh := rankCheck defs (computeRanks defs)
   let hyp := cxOkCheck defs && nodupCheck defs
   let wf := pats.all (fun p => swf sig wildOnBad p ty)
@@ -165,12 +174,12 @@ def answer (kind : String) (ty : Nat) (defs : List Def) (pats : List SPat) (mono
     -- main_checker.rs:940-946: useless (irrefutable) iff a wildcard is not useful after the pattern
     match isAdditionalPatternUseful cx aps .wild with
     | none => "fuel"
-    | some u => s!"nonexh=- useless={b (!u)} err={b err} panic={b pan} typed={b typed} inh={b inh} mono={b mono} hyp={b hyp} swf={b wf}"
+    | some u => s!"nonexh=- useless={b (!u)} err={b err} panic={b pan} typed={b typed} inh={b inh} mono={b mono} hyp={b hyp} swf={b wf} abs={absS}"
   else
     match incompleteCounterexample cx aps with
     | none => "fuel"
-    | some none => s!"nonexh=- useless=0 err={b err} panic={b pan} typed={b typed} inh={b inh} mono={b mono} hyp={b hyp} swf={b wf}"
-    | some (some d) => s!"nonexh={(render d).replace " " "~"} useless=0 err={b err} panic={b pan} typed={b typed} inh={b inh} mono={b mono} hyp={b hyp} swf={b wf}"
+    | some none => s!"nonexh=- useless=0 err={b err} panic={b pan} typed={b typed} inh={b inh} mono={b mono} hyp={b hyp} swf={b wf} abs={absS}"
+    | some (some d) => s!"nonexh={(render d).replace " " "~"} useless=0 err={b err} panic={b pan} typed={b typed} inh={b inh} mono={b mono} hyp={b hyp} swf={b wf} abs={absS}"
 
 def step (_ : Unit) (line : String) : Unit × String :=
   match words line with
